@@ -9,7 +9,7 @@ ROUND5 = [
         (J + "models/base.py", "import re\n", "import re\nimport threading\n"),
     ]),
     ("paths_bound_to_local", "the matched paths are bound to a local before the loop", [
-        (J + "cli.py", "            for real_path in process_path(path_raw):\n", "            matched = process_path(path_raw)\n            for real_path in matched:\n"),
+        (J + "cli.py", "            for real_path in process_path(path_raw):\n", "            found_paths = process_path(path_raw)\n            for real_path in found_paths:\n"),
     ]),
     ("kwargs_item_checked_then_partitioned", "a NAME=VALUE item is checked for `=` and then partitioned", [
         (J + "cli.py", "                name, value = item.split(\"=\", 1)\n",
